@@ -1,8 +1,12 @@
 import Robust.Irc.Inv
+import Robust.Irc.Proofs.Entry
 /-!
 # C06 — no client line can crash the state machine
-(work in progress: the per-handler theorems are added as they are proved; the statements here
-are about the regenerated command table and the dispatch gate)
+`C06_no_panic`: applying one committed entry to a state satisfying the invariant never panics, for
+entries as the real system produces them (`EntryOk`) — whatever a *client* sends — and for services
+links that send protocol-conforming lines (`Conforming`); `C06_history_no_panic`: the same for every
+history from the initial state.  The first three statements are about the regenerated command
+table and the dispatch gate.
 -/
 namespace Robust.Props.C06
 open Robust Robust.Irc
@@ -27,9 +31,25 @@ theorem C06_minparams_gate (c : Ctx) (e : Entry) (m : IrcMsg) (s : Session) (fna
   unfold processMessage
   simp only [hs, bind, Res.bind]
   rcases haddr with h | h
-  · simp [h, hs, Res.bind, pure]
+  · simp [h, hs, pure]
     rcases hreg with hr | hr <;> simp [hr] at hl ⊢ <;> simp [hl, hlen]
-  · simp [h, hs, Res.bind, pure]
+  · simp [h, hs, pure]
     rcases hreg with hr | hr <;> simp [hr] at hl ⊢ <;> simp [hl, hlen]
+
+/-- one entry never panics: whatever a client session sends, and for every protocol-conforming line of
+a services link (`Conforming`: prefix present, documented number of parameters) -/
+theorem C06_no_panic (st : St) (e : Entry) (h : GInv st) (he : EntryOk st e) (hc : Conforming st e) :
+    ∀ site, applyEntry st e ≠ .panic site :=
+  applyEntry_no_panic st e h he hc
+
+/-- client sessions: no side condition on the line at all -/
+theorem C06_client_no_panic (st : St) (e : Entry) (h : GInv st) (he : EntryOk st e)
+    (hcl : ∀ s, AMap.get st.sessions e.session = some s → s.server = false) :
+    ∀ site, applyEntry st e ≠ .panic site :=
+  applyEntry_no_panic st e h he (fun _ s _ hs hsrv _ => by rw [hcl s hs] at hsrv; cases hsrv)
+
+/-- no history of well-formed, conforming entries panics -/
+theorem C06_history_no_panic {es : List Entry} (hw : WfHistory {} es) : ∀ site, runEntries {} es ≠ .panic site :=
+  run_no_panic GInv_init hw
 
 end Robust.Props.C06
